@@ -6,11 +6,18 @@ out=$1
 VERIF=$(cd "$(dirname "$(readlink -f "$0")")/../.." && pwd)
 cd "$VERIF"
 export GOFLAGS="-mod=mod" GOPROXY=off GOSUMDB=off GOTOOLCHAIN=local
-ovdir=$VERIF/build/c14-overlay
+ovdir=$VERIF/build/c14-overlay${VERIF_BUILD_SUFFIX:-}
 base=()
 if [ -n "${VERIF_OVERLAY:-}" ]; then base=(-base "$VERIF_OVERLAY"); fi
 go run ./cmd/genshim engine/osshim || exit 1
 ov=$(go run ./cmd/osrewrite -out "$ovdir" "${base[@]}" /repo/internal/file /repo/verifier/crl) || exit 1
+# E5: the same harness built with the race detector and WITHOUT the os shim (free-running supplementary pass)
+rm -f "$out.race"
+if [ -n "${VERIF_OVERLAY:-}" ]; then
+  go build -race -overlay "$VERIF_OVERLAY" -o "$out.race" ./harness/c14 2> "$ovdir/race.err" || rm -f "$out.race"
+else
+  go build -race -o "$out.race" ./harness/c14 2> "$ovdir/race.err" || rm -f "$out.race"
+fi
 if go build -overlay "$ov" -o "$out" ./harness/c14 2> "$ovdir/build.err"; then
   exit 0
 fi
